@@ -18,7 +18,7 @@ RULE = (
 )
 ASSUMPTIONS = ['delete/repack run while no other client accesses the container (as documented)']
 
-WEIGHTS = {'add': 7, 'addpack': 7, 'pack': 4, 'clean': 3, 'delete': 8, 'repack': 6, 'plant_dup': 3, 'loosen': 2, 'reopen': 1, 'repack_pack': 1}
+WEIGHTS = {'add': 7, 'addpack': 7, 'pack': 4, 'clean': 3, 'delete': 8, 'repack': 6, 'plant_dup': 3, 'loosen': 2, 'reopen': 1, 'repack_pack': 1, 'addfail': 1}
 
 
 def strategy(tier='quick'):
